@@ -310,7 +310,11 @@ Section Gen.
     Variable rk : bytes -> bytes.            (* the key without "table:" *)
     Variable wrap : bytes -> bytes.          (* "table:" in front of a cursor *)
     Hypothesis wrap_rk : forall x, inT x = true -> wrap (rk x) = x.
-    Hypothesis rk_nonempty : forall x, In x NL -> inT x = true -> rk x <> [].
+    (* a key whose name is empty is the first of its table in byte order: when it is the cursor, nothing of
+       the table remains (forwards it is never reached, backwards it is the last one) *)
+    Hypothesis rk_empty_last : forall c x,
+      In x (stream (wrap c)) -> inT x = true -> rk x = [] -> filter inT (stream x) = [].
+    Definition no_empty_rk : Prop := forall x, In x NL -> inT x = true -> rk x <> [].
     (* the table is an interval that contains every cursor *)
     Hypothesis down_closed : forall c x y,
       lt (wrap c) x = true -> lt x y = true -> inT y = true -> inT x = true.
@@ -369,7 +373,8 @@ Section Gen.
       exists pages,
         iterate fuel call c = (pages, Done) /\
         concat (map fst pages) = filter inT (stream (wrap c)) /\
-        length pages = (length (filter inT (stream (wrap c))) / n + 1)%nat.
+        (length pages <= length (filter inT (stream (wrap c))) / n + 1)%nat /\
+        (no_empty_rk -> length pages = (length (filter inT (stream (wrap c))) / n + 1)%nat).
     Proof.
       induction fuel as [|f IH]; intros c Hfuel; [lia|].
       cbn [iterate]. rewrite call_spec. unfold node_post.
@@ -383,7 +388,7 @@ Section Gen.
           congruence. }
         apply app_eq_nil in Hnil. destruct Hnil as [-> ->].
         eexists. split; [reflexivity|]. split; [reflexivity|].
-        cbn [length]. rewrite Nat.div_0_l by lia. reflexivity. }
+        cbn [length]. rewrite Nat.div_0_l by lia. split; [lia|reflexivity]. }
       destruct (Nat.le_gt_cases n (length A)) as [Hn|Hn].
       - (* the page lies inside the table *)
         assert (firstn n (A ++ B) = firstn n A) as Hpg.
@@ -397,13 +402,13 @@ Section Gen.
         assert (In x NL) as HxNL.
         { assert (In x (stream (wrap c))) as H by (rewrite HS; apply in_or_app; now left).
           now apply stream_in in H. }
-        pose proof (rk_nonempty x HxNL HTx) as Hrk.
-        assert (stream (wrap (rk x)) = skipn n (A ++ B)) as Hchain.
-        { rewrite wrap_rk by exact HTx. rewrite <- HS. apply stream_chain.
+        assert (In x (stream (wrap c))) as HxS by (rewrite HS; apply in_or_app; now left).
+        assert (stream x = skipn n (A ++ B)) as Hchain.
+        { rewrite <- HS. apply stream_chain.
           - rewrite HS, firstn_app. replace (n - length A)%nat with 0%nat by lia.
             cbn [firstn]. rewrite app_nil_r. exact Hl.
           - rewrite HS, app_length. lia. }
-        assert (filter inT (stream (wrap (rk x))) = skipn n A) as Hrest.
+        assert (filter inT (stream x) = skipn n A) as Hrest.
         { rewrite Hchain, skipn_app. replace (n - length A)%nat with 0%nat by lia. cbn [skipn].
           apply filter_shape; [|exact HB]. rewrite <- (firstn_skipn n A) in HA.
           apply Forall_app in HA. tauto. }
@@ -411,11 +416,18 @@ Section Gen.
         assert (length A / n = 1 + length (skipn n A) / n)%nat as Hdiv.
         { rewrite Hsplit at 1. replace (n + length (skipn n A))%nat with (1 * n + length (skipn n A))%nat by lia.
           rewrite Nat.div_add_l by lia. reflexivity. }
-        destruct (IH (rk x)) as [pages [Hit [Hcat Hcnt]]]; [rewrite Hrest; lia|].
-        destruct (rk x) as [|b0 r0] eqn:Erk; [congruence|].
-        rewrite Hit. eexists. split; [reflexivity|]. split.
-        + cbn [map concat fst]. rewrite Hcat, Hrest. apply firstn_skipn.
-        + cbn [length]. rewrite Hcnt, Hrest, Hdiv. lia.
+        pose proof (wrap_rk x HTx) as Hw.
+        destruct (rk x) as [|b0 r0] eqn:Erk.
+        + (* the key with the empty name ends the iteration: nothing of the table remains *)
+          assert (skipn n A = []) as Hnil by (rewrite <- Hrest; now apply (rk_empty_last c x)).
+          eexists. split; [reflexivity|]. split.
+          * cbn [map concat fst]. rewrite app_nil_r. rewrite <- (firstn_skipn n A) at 2. now rewrite Hnil, app_nil_r.
+          * split; [cbn [length]; lia|]. intro Hne. exfalso. exact (Hne x HxNL HTx Erk).
+        + rewrite <- Hw in Hrest.
+          destruct (IH (b0 :: r0)) as [pages [Hit [Hcat [Hle Heq]]]]; [rewrite Hrest; lia|].
+          rewrite Hit. eexists. split; [reflexivity|]. split.
+          * cbn [map concat fst]. rewrite Hcat, Hrest. apply firstn_skipn.
+          * rewrite Hrest in Hle, Heq. split; [cbn [length]; lia|]. intro Hne. cbn [length]. rewrite (Heq Hne). lia.
       - (* the page reaches the end of the table *)
         assert (firstn n (A ++ B) = A ++ firstn (n - length A) B) as Hpg.
         { rewrite firstn_app. now rewrite (firstn_all2 A) by lia. }
@@ -429,7 +441,7 @@ Section Gen.
           rewrite HTx. replace (length A <? n)%nat with true by (symmetry; apply Nat.ltb_lt; lia).
           eexists. split; [reflexivity|]. split.
           * cbn. apply app_nil_r.
-          * rewrite Hdiv. reflexivity.
+          * rewrite Hdiv. split; [cbn; lia|reflexivity].
         + (* the last element of the page lies outside *)
           assert (Forall (fun x => inT x = false) (b :: B')) as HB'.
           { rewrite <- EB. rewrite <- (firstn_skipn (n - length A) B) in HB. apply Forall_app in HB. tauto. }
@@ -439,7 +451,7 @@ Section Gen.
           rewrite HTx. rewrite (cut_shape A (b :: B') HA HB').
           eexists. split; [reflexivity|]. split.
           * cbn. apply app_nil_r.
-          * rewrite Hdiv. reflexivity.
+          * rewrite Hdiv. split; [cbn; lia|reflexivity].
     Qed.
 
     (* without a COUNT argument *)
@@ -481,13 +493,13 @@ Section Gen.
         assert (In x NL) as HxNL.
         { assert (In x (stream (wrap c))) as H by (rewrite HS; apply in_or_app; now left).
           now apply stream_in in H. }
-        pose proof (rk_nonempty x HxNL HTx) as Hrk.
-        assert (stream (wrap (rk x)) = skipn n (A ++ B)) as Hchain.
-        { rewrite wrap_rk by exact HTx. rewrite <- HS. apply stream_chain.
+        assert (In x (stream (wrap c))) as HxS by (rewrite HS; apply in_or_app; now left).
+        assert (stream x = skipn n (A ++ B)) as Hchain.
+        { rewrite <- HS. apply stream_chain.
           - rewrite HS, firstn_app. replace (n - length A)%nat with 0%nat by lia.
             cbn [firstn]. rewrite app_nil_r. exact Hl.
           - rewrite HS, app_length. lia. }
-        assert (filter inT (stream (wrap (rk x))) = skipn n A) as Hrest.
+        assert (filter inT (stream x) = skipn n A) as Hrest.
         { rewrite Hchain, skipn_app. replace (n - length A)%nat with 0%nat by lia. cbn [skipn].
           apply filter_shape; [|exact HB]. rewrite <- (firstn_skipn n A) in HA.
           apply Forall_app in HA. tauto. }
@@ -495,11 +507,17 @@ Section Gen.
         assert (length A / n = 1 + length (skipn n A) / n)%nat as Hdiv.
         { rewrite Hsplit at 1. replace (n + length (skipn n A))%nat with (1 * n + length (skipn n A))%nat by lia.
           rewrite Nat.div_add_l by lia. reflexivity. }
-        destruct (IH (rk x)) as [pages [Hit [Hcat Hcnt]]]; [rewrite Hrest; lia|].
-        destruct (rk x) as [|b0 r0] eqn:Erk; [congruence|].
-        rewrite Hit. eexists. split; [reflexivity|]. split.
-        + cbn [map concat fst]. rewrite Hcat, Hrest. apply firstn_skipn.
-        + cbn [length]. rewrite Hrest in Hcnt. lia.
+        pose proof (wrap_rk x HTx) as Hw.
+        destruct (rk x) as [|b0 r0] eqn:Erk.
+        + assert (skipn n A = []) as Hnil by (rewrite <- Hrest; now apply (rk_empty_last c x)).
+          eexists. split; [reflexivity|]. split.
+          * cbn [map concat fst]. rewrite app_nil_r. rewrite <- (firstn_skipn n A) at 2. now rewrite Hnil, app_nil_r.
+          * cbn [length]. lia.
+        + rewrite <- Hw in Hrest.
+          destruct (IH (b0 :: r0)) as [pages [Hit [Hcat Hcnt]]]; [rewrite Hrest; lia|].
+          rewrite Hit. eexists. split; [reflexivity|]. split.
+          * cbn [map concat fst]. rewrite Hcat, Hrest. apply firstn_skipn.
+          * cbn [length]. rewrite Hrest in Hcnt. lia.
       - assert (firstn n (A ++ B) = A ++ firstn (n - length A) B) as Hpg.
         { rewrite firstn_app. now rewrite (firstn_all2 A) by lia. }
         rewrite Hpg in *.
@@ -513,11 +531,12 @@ Section Gen.
           rewrite HTx.
           assert (In x NL) as HxNL.
           { assert (In x (stream (wrap c))) as H by (rewrite HS; exact HxA). now apply stream_in in H. }
-          pose proof (rk_nonempty x HxNL HTx) as Hrk.
-          assert (stream (wrap (rk x)) = []) as Hchain.
-          { rewrite wrap_rk by exact HTx.
-            rewrite (stream_chain (wrap c) (length A) x); [rewrite HS; apply skipn_all|rewrite HS, firstn_all; exact Hl|rewrite HS; lia]. }
-          destruct (rk x) as [|b0 r0] eqn:Erk; [congruence|].
+          assert (stream x = []) as Hchain.
+          { rewrite (stream_chain (wrap c) (length A) x); [rewrite HS; apply skipn_all|rewrite HS, firstn_all; exact Hl|rewrite HS; lia]. }
+          pose proof (wrap_rk x HTx) as Hw.
+          destruct (rk x) as [|b0 r0] eqn:Erk.
+          { eexists. split; [reflexivity|]. split; [cbn; now rewrite app_nil_r|cbn [length]; lia]. }
+          rewrite <- Hw in Hchain.
           destruct f as [|f']; [lia|]. cbn [iterate]. rewrite call0_spec, Hchain, firstn_nil. cbn [last_opt].
           eexists. split; [reflexivity|]. split.
           * cbn. now rewrite app_nil_r.
@@ -570,19 +589,21 @@ Section Gen.
         assert (In x NL) as HxNL.
         { assert (In x (stream (wrap c))) as H by (rewrite HS; apply in_or_app; now left).
           now apply stream_in in H. }
-        pose proof (rk_nonempty x HxNL HTx) as Hrk.
-        assert (stream (wrap (rk x)) = skipn n (A ++ B)) as Hchain.
-        { rewrite wrap_rk by exact HTx. rewrite <- HS. apply stream_chain.
+        assert (In x (stream (wrap c))) as HxS by (rewrite HS; apply in_or_app; now left).
+        assert (stream x = skipn n (A ++ B)) as Hchain.
+        { rewrite <- HS. apply stream_chain.
           - rewrite HS, firstn_app. replace (n - length A)%nat with 0%nat by lia.
             cbn [firstn]. rewrite app_nil_r. exact Hl.
           - rewrite HS, app_length. lia. }
-        assert (filter inT (stream (wrap (rk x))) = skipn n A) as Hrest.
+        assert (filter inT (stream x) = skipn n A) as Hrest.
         { rewrite Hchain, skipn_app. replace (n - length A)%nat with 0%nat by lia. cbn [skipn].
           apply filter_shape; [|exact HB]. rewrite <- (firstn_skipn n A) in HA.
           apply Forall_app in HA. tauto. }
         rewrite (Hfull _ x Hl HTx) by (rewrite firstn_length; lia).
         exists (firstn n A), (rk x), (skipn n A). split; [reflexivity|]. split; [symmetry; apply firstn_skipn|].
-        split; [congruence|]. intros _. split; [|now rewrite Hrest].
+        split.
+        { intro Erk. rewrite <- Hrest. now apply (rk_empty_last c x). }
+        intros _. split; [|now rewrite (wrap_rk x HTx), Hrest].
         apply firstn_nonempty; [exact n_pos|]. destruct A; [destruct HxA|discriminate].
       - assert (firstn n (A ++ B) = A ++ firstn (n - length A) B) as Hpg.
         { rewrite firstn_app. now rewrite (firstn_all2 A) by lia. }
@@ -595,7 +616,6 @@ Section Gen.
           assert (inT x = true) as HTx by (rewrite Forall_forall in HA; now apply HA).
           assert (In x NL) as HxNL.
           { assert (In x (stream (wrap c))) as H by (rewrite HS; exact HxA). now apply stream_in in H. }
-          pose proof (rk_nonempty x HxNL HTx) as Hrk.
           assert (stream (wrap (rk x)) = []) as Hchain.
           { rewrite wrap_rk by exact HTx.
             rewrite (stream_chain (wrap c) (length A) x); [rewrite HS; apply skipn_all|rewrite HS, firstn_all; exact Hl|rewrite HS; lia]. }
